@@ -84,7 +84,7 @@ func TestVerif_C04_History(t *testing.T) {
 				case "big":
 					n = gen.Int(t, "n", 1024, 5120)
 				}
-				chunk := gen.RandBytes(r, n)
+				chunk := c04Content(t, r, n)
 				snap := append([]byte(nil), chunk...)
 				var wn int
 				var werr error
@@ -621,4 +621,53 @@ func c04Deliver(w io.Writer, chunk []byte, mode string) (int, error) {
 		}
 		return w.Write(chunk)
 	}
+}
+
+// c04Content returns n bytes: random, or (one case in three) WORD-STRUCTURED — built lane by lane from 32- or 64-bit words taken from
+// {0, 1, 2^31, 2^32-1 / 2^63, 2^64-1, a random word X} and relations between neighbouring lanes (the same word again, its
+// complement, its negative): blocks whose words cancel in a sum or an xor, repeat, or are all zero but one bit. The compression
+// function treats every block alike; a shortcut that classifies blocks by a digest of their words does not.
+func c04Content(t *rapid.T, r interface {
+	Read([]byte) (int, error)
+	Uint64() uint64
+	Intn(int) int
+}, n int) []byte {
+	if gen.Uniform(t, "content-structured", 0, 2) != 0 {
+		b := make([]byte, n)
+		r.Read(b)
+		return b
+	}
+	b := make([]byte, 0, n+8)
+	w := 8
+	if gen.Bool(t, "lane32") {
+		w = 4
+	}
+	var prev uint64
+	x := r.Uint64()
+	for len(b) < n {
+		var v uint64
+		switch r.Intn(9) {
+		case 0, 1:
+			v = 0
+		case 2:
+			v = 1
+		case 3:
+			v = 1 << uint(8*w-1-r.Intn(4)) // 2^63, 2^62, 2^61, 2^60: a few equal lanes of these sum to 0 mod 2^64
+		case 4:
+			v = ^uint64(0)
+		case 5:
+			v = x
+		case 6:
+			v = -prev
+		case 7:
+			v = ^prev
+		default:
+			v = prev
+		}
+		prev = v
+		for i := w - 1; i >= 0; i-- {
+			b = append(b, byte(v>>uint(8*i)))
+		}
+	}
+	return b[:n]
 }
